@@ -175,3 +175,16 @@ Proof.
   - simpl. reflexivity.
   - apply Z.ltb_ge in E. assert (n = 0) by lia. subst. simpl. reflexivity.
 Qed.
+
+(* %bxy tests the closing delimiter first (matcher.go's switch, lstrlib's
+   matchbalance): with identical delimiters the first later delimiter closes. *)
+Theorem balanced_close_first : forall x r c0, bal x x (x :: r) 1 c0 = (true, c0 + 1).
+Proof. intros. simpl. rewrite Z.eqb_refl. reflexivity. Qed.
+
+Theorem balanced_same_delims_spec : forall ea s x i c rest,
+  (exists r, suffix s i = x :: x :: r) ->
+  M ea s (IBalanced x x :: rest) i c = M ea s rest (i + 2) c.
+Proof.
+  intros ea s x i c rest [r H]. simpl. rewrite H. rewrite Z.eqb_refl.
+  rewrite balanced_close_first. reflexivity.
+Qed.
